@@ -3,6 +3,8 @@ package io
 import (
 	"bytes"
 	"io"
+
+	zerr "github.com/DemoHn/Zn/pkg/error"
 )
 
 // ByteStream - import a string as code source
@@ -22,9 +24,13 @@ func NewByteStream(b []byte) *ByteStream {
 }
 
 func (b *ByteStream) ReadAll() ([]rune, error) {
-	data, _, err := readRune(b.reader, b.encBuffer, b.length)
+	data, remains, err := readRune(b.reader, b.encBuffer, b.length)
 	if err != nil {
 		return []rune{}, err
+	}
+	// the whole input has been read: a carried tail is a truncated character
+	if len(remains) > 0 {
+		return []rune{}, zerr.ReadFileError(io.ErrUnexpectedEOF, " <buffer> ")
 	}
 	return data, nil
 }
